@@ -62,7 +62,7 @@ public:
 
 public:
   static String unescapeString(const String& str);
-  static String escapeString(const String& str);
+  static String escapeString(const String& str, bool attributeValue = false);
   static String escapeStrings[5];
   static const char* escapeChars;
 };
@@ -266,7 +266,7 @@ String Xml::Private::unescapeString(const String& str)
   return result;
 }
 
-String Xml::Private::escapeString(const String& str)
+String Xml::Private::escapeString(const String& str, bool attributeValue)
 {
   String result(str.length() + 200);
   char* destStart = result;
@@ -277,6 +277,16 @@ String Xml::Private::escapeString(const String& str)
     c = *i;
     if((c & 0xc0) || (c & 0xe0) == 0) // c >= 64 || c < 32
     {
+      if(attributeValue && (c == '\n' || c == '\r'))
+      { // a line break inside an attribute value is written as character reference
+        result.resize(dest - destStart);
+        result.reserve(result.length() + 5 + (end - i));
+        destStart = result;
+        dest = destStart + result.length();
+        Memory::copy(dest, c == '\n' ? "&#10;" : "&#13;", 5 * sizeof(char));
+        dest += 5;
+        continue;
+      }
       *(dest++) = c;
       continue;
     }
@@ -507,7 +517,7 @@ String Xml::Element::toString() const
     result.append(' ');
     result.append(i.key());
     result.append("=\"");
-    result.append(Xml::Private::escapeString(*i));
+    result.append(Xml::Private::escapeString(*i, true));
     result.append('"');
   }
   if(content.isEmpty())
